@@ -111,26 +111,28 @@ Rec(s, r) == IF RECORD = "off" THEN last
 
 Do(s) == LET r == ApplyStep(m, s) IN m' = r.m /\ last' = Rec(s, r)
 
+\* The calls an instance generates in a state, as sets of step records (WireSim picks from them at random):
 \* an Add / Prepend is generated while the field has room, and also when it must fail (type mismatch)
-DoAdd == \E e \in Main, nm \in MainNames :
-            /\ (TypeOfField(nm) = e.t => NumItems(nm) < MaxItems)
-            /\ Do([op |-> "Add", n |-> nm, t |-> e.t, v |-> e.v, i |-> 0, a |-> FALSE])
-DoPrepend == \E e \in Main, nm \in MainNames :
-            /\ (TypeOfField(nm) = e.t => NumItems(nm) < MaxItems)
-            /\ Do([op |-> "Prepend", n |-> nm, t |-> e.t, v |-> e.v, i |-> 0, a |-> FALSE])
-DoSide == \E e \in Side :
-            /\ IF e.n = NB THEN NumItems(NB) = 0 ELSE NumItems(NA) > 0 /\ TypeOfField(NA) # e.t
-            /\ Do([op |-> "Add", n |-> e.n, t |-> e.t, v |-> e.v, i |-> 0, a |-> FALSE])
+Step(op, nm, t, val, i, a) == [op |-> op, n |-> nm, t |-> t, v |-> val, i |-> i, a |-> a]
+RoomFor(nm, t) == TypeOfField(nm) = t => NumItems(nm) < MaxItems
+AddSteps     == {s \in {Step("Add", nm, e.t, e.v, 0, FALSE) : e \in Main, nm \in MainNames} : RoomFor(s.n, s.t)}
+PrependSteps == {s \in {Step("Prepend", nm, e.t, e.v, 0, FALSE) : e \in Main, nm \in MainNames} : RoomFor(s.n, s.t)}
+\* the neighbour "b" gets one item (a tag or a flattenable one); the Add on "a" with another type must fail
+SideSteps    == {s \in {Step("Add", e.n, e.t, e.v, 0, FALSE) : e \in Side} : IF s.n = NB THEN NumItems(NB) = 0 ELSE NumItems(NA) > 0 /\ TypeOfField(NA) # s.t}
 \* every valid index, and the first invalid one (must fail and change nothing)
-DoRemove == \E nm \in AllNames : \E i \in 0..NumItems(nm) :
-            Do([op |-> "Remove", n |-> nm, t |-> <<>>, v |-> <<>>, i |-> i, a |-> FALSE])
-\* every valid index; the first invalid one with and without okayToAdd; a missing field; a field of another type
-DoReplace == \E e \in Main, nm \in MainNames : \E i \in 0..NumItems(nm) : \E a \in BOOLEAN :
-            /\ a => i = NumItems(nm) /\ (TypeOfField(nm) = e.t => NumItems(nm) < MaxItems)
-            /\ (TypeOfField(nm) # e.t /\ NumItems(nm) > 0) => i = 0
-            /\ Do([op |-> "Replace", n |-> nm, t |-> e.t, v |-> e.v, i |-> i, a |-> a])
-DoRemoveName == \E nm \in AllNames :
-            Do([op |-> "RemoveName", n |-> nm, t |-> <<>>, v |-> <<>>, i |-> 0, a |-> FALSE])
+RemoveSteps  == UNION {{Step("Remove", nm, <<>>, <<>>, i, FALSE) : i \in 0..NumItems(nm)} : nm \in AllNames}
+\* every valid index; the first invalid one with and without okayToAdd; a missing field; a field of another type (index 0 only)
+ReplaceSteps == UNION {{s \in {Step("Replace", nm, e.t, e.v, i, a) : e \in Main, i \in 0..NumItems(nm), a \in BOOLEAN} :
+                          /\ s.a => (s.i = NumItems(nm) /\ RoomFor(nm, s.t))
+                          /\ (TypeOfField(nm) # s.t /\ NumItems(nm) > 0) => s.i = 0} : nm \in MainNames}
+RemoveNameSteps == {Step("RemoveName", nm, <<>>, <<>>, 0, FALSE) : nm \in AllNames}
+
+DoAdd        == \E s \in AddSteps : Do(s)
+DoPrepend    == \E s \in PrependSteps : Do(s)
+DoSide       == \E s \in SideSteps : Do(s)
+DoRemove     == \E s \in RemoveSteps : Do(s)
+DoReplace    == \E s \in ReplaceSteps : Do(s)
+DoRemoveName == \E s \in RemoveNameSteps : Do(s)
 
 New(w) == LET e == [what |-> w, fields |-> <<>>] IN
           /\ m = e
